@@ -1,11 +1,11 @@
 package absint
 
 import (
-	"math"
 	"fmt"
 	"go/constant"
 	"go/token"
 	"go/types"
+	"math"
 	"math/big"
 	"os"
 	"sort"
@@ -108,22 +108,22 @@ type Interp struct {
 	Hashes       []*HashObj
 	LeafCalls    int
 	FuncsEntered map[*ssa.Function]int
-	symIdx map[string]*Cell
+	symIdx       map[string]*Cell
 	inputs       map[string]*Object
 	nreads       int
 	stack        []*Frame
 	// ReadStates: the abstract state just before each entropy read (loop-unrolling mode)
 	ReadStates []ReadState
-	inputRoots   []*Cell
-	PowApplied   []*ssa.Function
-	loopIter     map[*ssa.BasicBlock]int
-	inInit       bool
+	inputRoots []*Cell
+	PowApplied []*ssa.Function
+	loopIter   map[*ssa.BasicBlock]int
+	inInit     bool
 	// TaintedLeafCalls counts (opaque mode) the generated primitives called with a secret-dependent operand
 	TaintedLeafCalls int
-	InitEvents   []Event
-	InitHashes   int
-	pendingBinds []Value
-	bigVals      map[*Cell]*Term
+	InitEvents       []Event
+	InitHashes       int
+	pendingBinds     []Value
+	bigVals          map[*Cell]*Term
 }
 
 type oracle struct {
@@ -1538,7 +1538,6 @@ func checkDeadline() {
 	}
 }
 
-
 // valueAlternatives recognises a 0/1 term [s = v1] + ... + [s = vk] over one symbol s (k >= 2).
 func valueAlternatives(t *Term) []*PAtom {
 	var alts []*PAtom
@@ -1568,14 +1567,12 @@ func valueAlternatives(t *Term) []*PAtom {
 	return alts
 }
 
-
 func clip(s string, n int) string {
 	if len(s) > n {
 		return s[:n] + "…"
 	}
 	return s
 }
-
 
 // isLenEquality: p is [len(x) = c] or its negation for an input length symbol.
 func isLenEquality(p *Term) bool {
@@ -1601,7 +1598,6 @@ func isLenEquality(p *Term) bool {
 	}
 	return n == 1
 }
-
 
 // stepTolerant executes one top-level instruction of a package initialiser. An initialiser expression the
 // interpreter cannot follow (or that panics in the abstract) makes the variable it initialises unknown instead of
